@@ -857,6 +857,7 @@ func TestVerif_C22_Deadlines(t *testing.T) {
 	r.Rule(P, "one synctest bubble per case; client cases = blocking point ("+strings.Join(c22Points, ", ")+") x {Invoke, NewStream/SendMsg/CloseSend/RecvMsg} x timing "+
 		"(deadline d in {0, 1ms, 1s} [thorough: 0,1ns,1us,1ms,50ms,1s,1h] or cancel {before the call, in the quiescence step in which the call blocked, 500ms later [thorough: +1ns,+500ms,+1h]}) x {fail-fast, wait-for-ready where it matters}; "+
 		"server cases = raw HTTP/2 client sending grpc-timeout in {none,1n,1m,1S,1000m,...} x RST_STREAM(CANCEL) {never, at once, +500ms} x handler {returns on ctx.Done, ignores ctx}; "+
+		"gap cases = {Invoke, NewStream with StreamDesc none/client-streaming/server-streaming/bidi} x application position {after NewStream, after SendMsg (normal / zero window), after CloseSend, in Header, after Header, in RecvMsg, in SendMsg on flow control, in Invoke (no headers / headers / zero window)} x event {ctx cancel, deadline 1s, ClientConn.Close}; "+
 		"boundary cases = deadline 1s never cancelled by the application x blocked {in RecvMsg after response headers, on a zero flow-control window} x {Invoke, streaming} x raw server RST_STREAM(CANCEL) at d+{-1ms,-1ns,0,+1ns,+1ms} x ctx.Done() closing {0,1ns,1ms} after ctx.Deadline(); "+
 		"a case is non-trivial when the call was observed durably blocked at the intended point (op name + wire evidence) before the deadline/cancel (distinct by case)")
 	r.Assume(P, "testing/synctest virtual clock and quiescence detection; zero network latency (in-memory pipe), so 'remaining time at send' is exact; raw peers use an independent x/net/http2 framer; grpc-timeout decoded by an independent regexp decoder")
@@ -868,7 +869,11 @@ func TestVerif_C22_Deadlines(t *testing.T) {
 			r.EngineError("replay: %v", err)
 			return
 		}
-		if _, ok := raw["rst_point"]; ok {
+		if _, ok := raw["gap_desc"]; ok {
+			var c c22GapCase
+			r.LoadReplay(&c)
+			c22Evaluate(r, c.String(), c, c22GapRun(r.T, c))
+		} else if _, ok := raw["rst_point"]; ok {
 			var c c22RstCase
 			r.LoadReplay(&c)
 			c22Evaluate(r, c.String(), c, c22RstRun(r.T, c))
@@ -890,6 +895,7 @@ func TestVerif_C22_Deadlines(t *testing.T) {
 		r.Set(P, "client_cases_total", len(cases))
 		r.Set(P, "server_cases_total", len(scases))
 		r.Set(P, "rst_at_deadline_cases_total", len(c22RstCases(r.Thorough())))
+		r.Set(P, "gap_cases_total", len(c22GapCases()))
 	}
 	i := 0
 	for _, c := range cases {
@@ -915,6 +921,18 @@ func TestVerif_C22_Deadlines(t *testing.T) {
 		}
 		c22WatchCase(c.String(), c)
 		c22Evaluate(r, c.String(), c, c22SrvRun(r.T, c))
+	}
+	for _, c := range c22GapCases() {
+		i++
+		if !r.Mine(i) {
+			continue
+		}
+		if r.OverBudget() {
+			r.Cap(P, "time budget")
+			return
+		}
+		c22WatchCase(c.String(), c)
+		c22Evaluate(r, c.String(), c, c22GapRun(r.T, c))
 	}
 	for _, c := range c22RstCases(r.Thorough()) {
 		i++
@@ -948,7 +966,7 @@ func c22Evaluate(r *vk.Run, name string, c any, res c22Result) {
 	}
 	r.Outcome(P, res.Outcome)
 	switch name {
-	case "rst-at-deadline/recv/unary/rst=d+0s/done=d+1ns", "rst-at-deadline/flowctl/stream/rst=d-1ns/done=d+1ms":
+	case "gap/none/after-SendMsg/cancel", "gap/bidi/after-CloseSend/deadline", "rst-at-deadline/recv/unary/rst=d+0s/done=d+1ns", "rst-at-deadline/flowctl/stream/rst=d-1ns/done=d+1ms":
 		r.Sample(P, map[string]any{"case": c, "name": name, "outcome": res.Outcome, "trace": res.Trace})
 	case "backoff/unary/ff/cancel:+500ms", "backoff-pushback/stream/ff/dl:1s", "quota1>recv/unary/ff/dl:1s", "handler/stream/ff/cancel:+500ms", "flowctl/stream/ff/dl:1ms", "nonready/unary/wfr/cancel:at",
 		`rawclient/timeout="1S"/rst=none/stubborn`, `rawclient/timeout="1000m"/rst=+500ms/ctxwait`:
